@@ -383,7 +383,11 @@ class TimeTriggeredPlanValidator(engines.engine.Engine, mixins.PlanValidatorMixi
                 changes = self._apply_effect(state, se, ai, eff, updates, problem)
                 for f, v in changes.items():
                     if f in assigned or (f in updates and eff.is_assignment()):
-                        if f.type.is_bool_type() and assigned[f] == ai:
+                        if f in assigned and eff.is_assignment() and updates[f] == v:
+                            # the same value assigned twice is not a conflict, as in
+                            # the UPSequentialSimulator
+                            pass
+                        elif f.type.is_bool_type() and assigned[f] == ai:
                             # Handle "delete before add" semantics
                             if v.bool_constant_value():
                                 updates[f] = v
